@@ -532,6 +532,52 @@ func checkHTML(c Case) string {
 	if m := rawCR([]byte(out)); m != "" {
 		return fmt.Sprintf("%s; markup %q", m, out)
 	}
+	// structure: a list shows its entries in order, at least the first one and as many as
+	// the size limit allows (a limit below one is a limit of one)
+	if top := unwrap(tree); top.K == "list" && c.Custom == 0 {
+		limit := max(c.MaxList, 1)
+		var want []string
+		for i, it := range top.X {
+			if i >= limit {
+				break
+			}
+			it = unwrap(it)
+			if it.K == "list" && len(it.X) > 0 {
+				it = unwrap(it.X[0])
+			}
+			if it.K == "str" && strings.TrimSpace(it.S) != "" && !strings.HasPrefix(it.S, "http://") && !strings.HasPrefix(it.S, "https://") && !strings.HasPrefix(it.S, "host:") {
+				want = append(want, it.S) // (link-like strings are written as a link with a fixed text)
+			}
+		}
+		var texts []string
+		var walk func(n *node)
+		walk = func(n *node) {
+			for _, a := range n.attrs {
+				texts = append(texts, a.Value) // (a link target is written as an attribute value)
+			}
+			if n.text != "" {
+				texts = append(texts, n.text)
+			}
+			for _, k := range n.kids {
+				walk(k)
+			}
+		}
+		walk(root)
+		pos := 0
+		for _, w := range want {
+			found := false
+			for pos < len(texts) {
+				pos++
+				if texts[pos-1] == w {
+					found = true
+					break
+				}
+			}
+			if !found {
+				return fmt.Sprintf("the list entry %q (one of the first %d entries, size limit %d) is not part of the output in its place; character data %q", w, limit, c.MaxList, texts)
+			}
+		}
+	}
 	return ""
 }
 
@@ -552,11 +598,11 @@ func significant(s string) bool {
 func TestPropC18(t *testing.T) {
 	defer evid.R.Flush()
 	rapid.Check(t, func(t *rapid.T) {
-		maxList := rapid.IntRange(1, 5).Draw(t, "maxList")
+		maxList := rapid.IntRange(-1, 5).Draw(t, "maxList")
 		tree := vtree.Gen(t, vtree.LegalXML, rapid.IntRange(1, 4).Draw(t, "depth"), true)
 		if rapid.IntRange(0, 2).Draw(t, "listAroundCutoff") == 0 {
 			// list sizes around the cut-off: n-1, n, n+1, n+2
-			n := maxList + rapid.IntRange(-1, 2).Draw(t, "delta")
+			n := max(maxList, 1) + rapid.IntRange(-1, 2).Draw(t, "delta")
 			l := vtree.Tree{K: "list"}
 			rows := rapid.Bool().Draw(t, "rows")
 			for i := 0; i < n; i++ {
